@@ -57,6 +57,11 @@ namespace verif
         virtual Scal scal(std::size_t sz)                                     = 0;
         virtual void maxes(std::size_t& mn, std::size_t& ma, std::size_t& mal) = 0;
 
+        // memory_pool_collection::reserve(node_size, capacity); false = the subject has no such member
+        virtual bool reserve(std::size_t, std::size_t)
+        {
+            return false;
+        }
         // memory_pool_collection: number of free lists (its default reservation is block size / this)
         virtual std::size_t pools()
         {
@@ -365,6 +370,11 @@ namespace verif
         std::size_t pools() override
         {
             return pools_;
+        }
+        bool reserve(std::size_t sz, std::size_t capacity) override
+        {
+            a->reserve(sz, capacity);
+            return true;
         }
         const char* family() const override
         {
